@@ -121,6 +121,9 @@ func (e *Engine) intrinsic(st *State, fn *ssa.Function, full string, args []Valu
 		case "vfSpawn":
 			e.spawn(st, args[0].(FuncV), site)
 			return nil, true
+		case "vfSpawnAtomic":
+			e.spawnAtomic(st, args[0].(FuncV), site)
+			return nil, true
 		case "vfJoin":
 			e.join(st, site)
 			return nil, true
@@ -146,6 +149,14 @@ func (e *Engine) intrinsic(st *State, fn *ssa.Function, full string, args []Valu
 				return IntV{c.BV(^uint64(0), 64)}, true
 			}
 			return IntV{selTerm(c, a.Path[len(a.Path)-1])}, true
+		case "vfOffsetIn":
+			// byte offset of slice a inside the region that slice r starts at; -1 if elsewhere
+			a, ok := args[0].(SliceV).P.single()
+			r, ok2 := args[1].(SliceV).P.single()
+			if !ok || !ok2 || a.Obj == nil || a.Obj != r.Obj {
+				return IntV{c.BV(^uint64(0), 64)}, true
+			}
+			return IntV{c.Sub(selTerm(c, a.Path[len(a.Path)-1]), selTerm(c, r.Path[len(r.Path)-1]))}, true
 		case "vfOffsetOfPtr":
 			a, ok := args[0].(PtrV).single()
 			if !ok || a.Obj == nil {
